@@ -20,6 +20,8 @@ GETCP = "(*%s/internal/witness.Witness).GetCheckpoint" % W
 
 BA = "%s/internal/feeder/bastion" % W
 FD = "%s/internal/feeder" % W
+HT = "%s/internal/http" % W
+CL = "%s/client/http" % W
 RS = "%s/internal/distribute/rest" % W
 OW = "%s/omniwitness" % W
 IM = "%s/internal/persistence/inmemory" % W
@@ -52,7 +54,7 @@ PROPS = {
     "C07": {"runs": [{"funcs": [UPDATE] + SQL_FUNCS + IM_FUNCS, "tags": ["C07"]}], "assumptions": [A_NOTE, A_STORE, A_SQL]},
     "C08": {"funcs": [UPDATE], "tags": ["C08"], "assumptions": [A_NOTE, A_STORE, A_VCPREFIX]},
     "C09": {"funcs": [UPDATE], "tags": ["C09"], "assumptions": [A_NOTE, A_STORE, A_VCPREFIX]},
-    "C10": {"runs": [{"funcs": [BA + ".addHandler).handleUpdate", OW + ".witnessAdapter).Update", UPDATE], "tags": ["C10"]}],
+    "C10": {"runs": [{"funcs": [BA + ".addHandler).handleUpdate", BA + ".addHandler).ServeHTTP", BA + ".parseBody", OW + ".witnessAdapter).Update", UPDATE], "tags": ["C10"]}],
             "assumptions": [A_NOTE, A_STORE, "net/http ResponseWriter, rate.Limiter, strings.SplitN contracts (contracts/55_http.spec)",
                             "the interface contract of feeder.Witness.Update is proved for omniwitness.witnessAdapter from the proved contract of (*Witness).Update under the adapter's configuration preconditions (store, published verifier, origins); omniwitness.Main establishing that configuration is read, not verified",
                             "TLS 1.3 / HTTP-2 reverse connection, http.MaxBytesHandler and the rate limiter's arithmetic are not covered"]},
@@ -63,10 +65,15 @@ PROPS = {
     "C15": {"runs": [{"funcs": [RS + ".Distributor).distributeForLog", RS + ".Distributor).DistributeOnce"], "tags": ["C15"]}],
             "assumptions": [A_NOTE, "net/http client, net/url, bytes.Reader contracts (contracts/70_distribute.spec): a request carries the method, URL string and body it was built with; redirects are visible through resp.Request.Method",
                             "note.Open with verifiers {log, witness}: the number of verified signatures is a function of (bytes, log verifier, witness verifier)"]},
+    "C16": {"runs": [{"funcs": [HT + ".Server).getCheckpoint", HT + ".Server).getLogs", HT + ".httpForCode", CL + ".Witness).GetLatestCheckpoint", GETCP, OW + ".witnessAdapter).GetLatestCheckpoint",
+                               IM + ".inMemoryPersistence).Logs", IM + ".verifScenarioRead", SQ + ".verifScenarioRead", UPDATE], "tags": ["C16", "C03.a"]}],
+            "assumptions": [A_STORE, A_SQL, "gorilla/mux routing: the handler sees the path variable 'logid' of the matched route, and the pattern [a-zA-Z0-9-]+ admits the hex IDs produced by log.ID (assumed)",
+                            "json.Marshal of a []string renders exactly its elements (jsonStrs); io.ReadAll returns the response body; net/http client contracts",
+                            "SQL Logs(): the SELECT returns the logID column of every row (assumed; only 'the cursor is closed on every path' is proved)"]},
     "C20": {"funcs": [UPDATE, INITM], "tags": ["C20"], "assumptions": [A_NOTE, A_STORE, A_VCPREFIX, "monitoring.Counter.Inc adds one to the counter for its label (interface contract)"]},
 }
 
-HOOK_COMMITS = ["7296b73", "af7d29a", "308f21e", "b6239f6", "c655fca", "35e6d9a", "634df6a", "1ee2140", "3f24477"]
+HOOK_COMMITS = ["7296b73", "af7d29a", "308f21e", "b6239f6", "c655fca", "35e6d9a", "634df6a", "1ee2140", "3f24477", "316cd06"]
 
 NOT_APPLICABLE = {
     "C14": "whole-system liveness and timing over goroutines, tickers, HTTP servers and stub log servers ('within a bounded number of poll intervals', across restarts): no per-function contract expresses 'eventually catches up', and omniwitness.Main (go/select/errgroup) is outside the generator's subset. Its safety ingredients are decided by C01, C12, C13, C16.",
@@ -101,11 +108,13 @@ MANIFEST_TEXT = {
     "C09": {"level": "Update's postcondition is the ordered decision table: one ensures clause per row with the spec-level first-match verdict computed from the entry state (known log, signature verdict, abstract store content, three 64-bit sizes, root equality, proof emptiness, vc verdict); sentinel errors compared by identity; path-complete, all of uint64^3.",
             "note": "the verdict of the Merkle hash chaining is the uninterpreted function vc(...); agreement with an independent RFC 6962 verifier is not decided here. The defect found by this check (F3) was repaired by commit eed264f."},
     "C10": {"level": "Postconditions of (*addHandler).handleUpdate against the PROVED contract of the real witness (carried through the interface contract of feeder.Witness.Update, which omniwitness.witnessAdapter.Update is proved to refine from (*Witness).Update's contract -- the composition the test suite never exercises): the request reaches the witness exactly once and unchanged; accepted => 200 and the body is '— name base64\\n' of the first signature of the returned note verified under the witness verifier, over the submitted text; old size too large => 400; stale => 409 with Content-Type text/x.tlog.size and the decimal size of the stored checkpoint; root mismatch => 409; bad proof => 422; bad signature => 403.",
-            "note": "ServeHTTP (rate limiting 429, malformed body 400, unknown origin 404, exactly one WriteHeader) is covered by C19/C11 obligations where built; TLS/HTTP-2 leg not covered. F1 (over 100 signature lines) is carved out as a known finding."},
+            "note": "ServeHTTP is verified too (17 blocks, all paths): exactly one status line out of {200,400,403,404,409,422,429,500}; over the rate => 429 without reading the body or calling the witness; the witness is asked at most once, for ID(first line of the checkpoint), only for a log in the handler's table; the status, Content-Type and body follow the witness's verdict. parseBody is used through a structural contract here (its text-format contract is C11). TLS/HTTP-2 leg, MaxBytesHandler and the limiter's arithmetic are not covered. F1 (over 100 signature lines) is carved out as a known finding; F4 was repaired."},
     "C13": {"level": "Trace postconditions (ghost call records of the witness interface and of FetchProof) of one attempt of the retry loop (the closure submitToWitness$1, verified on its own with its captured variables as pointer parameters), of submitToWitness and of FeedOnce: exactly one GetLatestCheckpoint and at most one Update per attempt, for this log's ID; an Update only after the witness answered with a checkpoint or 'none'; old size == size of exactly that answer (0 if none), which verified under the log's key and origin; proof empty for a refresh, otherwise exactly FetchProof(witness checkpoint -> submitted checkpoint); no Update and a permanent error when the witness is ahead; every failing step => non-permanent error and no later Update; success returns the bytes the witness returned; FeedOnce sends nothing unless the fetched checkpoint verifies and submits the fetched bytes unchanged. The adapter between feeder and witness is proved to forward faithfully.",
             "note": "safety part only; liveness of backoff.Retry is not decided."},
     "C15": {"level": "Trace postconditions of distributeForLog (all 10 return paths): the witness is asked once for l.ID; at most one request; if one is sent it is a PUT of exactly the bytes the witness returned, to baseURL + /distributor/v0/logs/<l.ID>/byWitness/<PathEscape(witness key name)>/checkpoint, and only after ParseCheckpoint(bytes, l.Origin, l.Verifier, witness verifier) succeeded with exactly two verified signatures; any failing step (witness error, parse, URL, request, transport, method rewritten by a redirect, body read, status != 200) => non-nil error; success counter moves iff success. DistributeOnce: loop invariant -- every configured log is attempted, numErrs counts the failures, result non-nil iff some log failed.",
             "note": "net/http and net/url contracts assumed; 'two verified signatures means the log's and the witness's' is note.Open's assumed contract."},
+    "C16": {"level": "Postconditions of the two read handlers, of the witness's GetCheckpoint, of the adapter and of the bundled HTTP client, over the abstract store: getCheckpoint answers 200 with exactly the stored bytes of exactly the log named by the route variable, 404 when the witness holds none (httpForCode proved as a table), and never writes; getLogs' body is the JSON of the list the store returned, and that list is exactly the set of IDs having a checkpoint -- proved for the in-memory store's Logs() by a loop invariant over map iteration (every listed ID has a checkpoint, every ID with a checkpoint is listed, no duplicates); the client turns 404 into exactly os.ErrNotExist (identity), 200 into the body bytes, anything else into an error; 'a refused first submission creates no entry' is Update's C03.a (store unchanged on refusal, key set included).",
+            "note": "mux routing, json.Marshal, the SQL SELECT and the net/http client are assumed contracts."},
     "C20": {"level": "Ghost-counter postcondition of Update: per call, each of the four counters moves for label logID exactly as the spec-level verdict prescribes and no other (counter, label) moves (frame, quantified). Histories are sums of per-call deltas.",
             "note": "Counter.Inc adds one for its label (interface contract); the four counters are distinct non-nil objects (precondition, established by initMetrics with a factory returning fresh counters: not yet proved)."},
 }
